@@ -105,6 +105,14 @@ func standInShape(v *Val, verb rune, dispatched bool, depth int, exp *[]expected
 		for _, s := range v.Sub {
 			c.Sub = append(c.Sub, standInShape(s, verb, dispatched && depth == 0, depth+1, exp))
 		}
+	case "stringer!", "pstringer!":
+		// String is called for the string verbs (never under '#', which the
+		// generator keeps away); it panics with Sub[0], which the report of
+		// the panic prints with the verb v
+		called := verb == 'v' || verb == 's' || verb == 'x' || verb == 'X' || verb == 'q'
+		for _, s := range v.Sub {
+			c.Sub = append(c.Sub, standInShape(s, 'v', dispatched && called, depth+1, exp))
+		}
 	case "berrslice":
 		// under the byte-string verbs a slice of byte-kinded elements is a
 		// byte string: its elements are not formatted one by one
